@@ -237,6 +237,27 @@ def run(tier, seed):
             v.violation(f"second input to one session: the stream's seqs are {seqs}", {"engine": "runs", "case": d12[0], "seqs": seqs},
                         key="D12-second-input-restarts-seq")
 
+    # ---- 2d. histories that cross an authority restart with the next-seq map cold: the head line of the thread's sidecar is
+    #          incomplete (torn / no newline) or the thread is the left-over of a handoff that failed after its creation frame
+    rh = []
+    for kind in ("tear_last_line", "chop_newline"):
+        for pad in (0, 9000):
+            rh.append({"id": f"cold-{kind}-{pad}", "ops": [{"op": "ensure_default"}, {"op": "message", "t": 0}, {"op": "message", "t": 0, "pad": pad},
+                                                            {"op": "fault", "t": 0, "file": "full", "kind": kind}, {"op": "restart"},
+                                                            {"op": "message", "t": 0}, {"op": "run_spawned", "t": 0, "m": 0, "s": 0}, {"op": "replay_all"}]})
+    rh.append({"id": "failed-handoff-leftover", "ops": [{"op": "ensure_default"}, {"op": "message", "t": 0}, {"op": "break_artifacts"},
+                                                         {"op": "handoff", "t": 0, "summary": "text"}, {"op": "message", "t": "last"}, {"op": "message", "t": "last"},
+                                                         {"op": "mend_artifacts"}, {"op": "branch", "t": 0}, {"op": "message", "t": "last"}, {"op": "replay_all"}]})
+    for res in run_harness("hist", rh, wd, "restart", shards=3, timeout=300):
+        frames = res["summary"]["frames"]
+        ok, bad = gapfree(frames)
+        replay_ok = res["summary"]["replay_validated"] and res["summary"]["bad_lines"] == 0
+        v.add_eval({"restart_history": res["id"]}, True)
+        if not (ok and replay_ok):
+            v.violation(f"history {res['id']}: the log is not gap-free afterwards: offending frame {bad}, replay_validated={replay_ok}; "
+                        f"frames {[(f[0], f[1], f[2].replace('continuity_', '')) for f in frames][-8:]}",
+                        {"engine": "hist", "case": [h for h in rh if h["id"] == res["id"]][0]})
+
     # ---- 3b. free-running clients through the real router, property-level trace validation
     nfree = 24 if thorough else 6
     fcases = [{"id": f"free{i}", "seed": seed * 1000 + i, "clients": 4 + (i % 5), "ops": 10 if not thorough else 16,
